@@ -295,6 +295,60 @@ impl Elem for [u8; 24] {
     }
 }
 
+/// Drop-tracked element with a real heap payload: under AddressSanitizer / Miri a double drop is
+/// a double free and a stale read is a use-after-free, on top of what the ledger records.
+pub struct TrB {
+    tr: Tr<0>,
+    payload: Box<u32>,
+}
+impl TrB {
+    pub fn new() -> Self {
+        let tr = Tr::<0>::new();
+        let payload = Box::new(tr.peek() ^ 0x5A5A_0000);
+        TrB { tr, payload }
+    }
+}
+impl Default for TrB {
+    fn default() -> Self {
+        ledger::tick("default");
+        TrB::new()
+    }
+}
+impl Clone for TrB {
+    fn clone(&self) -> Self {
+        let tr = self.tr.clone();
+        let payload = Box::new(tr.peek() ^ 0x5A5A_0000);
+        TrB { tr, payload }
+    }
+}
+impl fmt::Debug for TrB {
+    fn fmt(&self, f: &mut fmt::Formatter<'_>) -> fmt::Result {
+        write!(f, "B#{}", self.tr.peek())
+    }
+}
+impl Elem for TrB {
+    const NAME: &'static str = "TrB";
+    const TRACKED: bool = true;
+    const ZST: bool = false;
+    const COUNTS_CLONES: bool = true;
+    fn make() -> Self {
+        TrB::new()
+    }
+    fn ident(&self) -> u32 {
+        let id = self.tr.id();
+        if *self.payload != id ^ 0x5A5A_0000 {
+            ledger::with(|l| l.garbage += 1);
+        }
+        id
+    }
+    fn is_clone_of(&self, orig: &Self) -> bool {
+        self.tr.is_clone_of(&orig.tr)
+    }
+    fn live_of(ids: &[u32]) -> (Vec<u32>, u64) {
+        (ids.to_vec(), 0)
+    }
+}
+
 /// Clone-but-not-Copy element with NO drop glue whose clones are counted: selects the crate's
 /// `needs_drop == false` code paths while keeping `Clone::clone` observable.
 #[derive(Debug, PartialEq)]
